@@ -231,6 +231,46 @@ def dtype_variants(rng):
     return None
 
 
+def dtype_variants_any(rng):
+    """binary rows handed to a FusionART whose channels include a module whose NEW weight is not a copy of the sample
+    (ART1's bottom-up part, Gaussian ART's sigma / inverse, QuadraticNeuron's identity matrix and s_init): as int64, uint8
+    and bool arrays they are learned exactly as the same values given as float64 - a new category is initialised from
+    its sample by the modules' own rules, whatever container the sample arrives in"""
+    import artlib
+    d = rng.choice([2, 3])
+    n = rng.randrange(4, 10)
+    kind = rng.choice(["ART1", "ART1", "Gauss", "Quad"])
+    raw = np.array([[rng.randrange(2) for _ in range(d)] for _ in range(n)])
+    for r in raw:
+        if not r.any():
+            r[rng.randrange(d)] = 1
+    rho_f = rng.choice([0.0, 0.25, 0.5])
+    with_fuzzy = rng.random() < 0.5
+    p = {"ART1": dict(rho=rng.choice([0.0, 0.3, 0.5]), L=rng.choice([1.5, 2.0, 3.0])),
+         "Gauss": dict(rho=rng.choice([0.0, 0.1]), sigma_init=np.array([0.5] * d), alpha=1e-3),
+         "Quad": dict(rho=rng.choice([0.0, 0.3]), s_init=0.5, lr_b=0.5, lr_w=0.1, lr_s=0.05)}[kind]
+    Xi = np.hstack([raw, raw, 1 - raw]) if with_fuzzy else raw
+
+    def run(X):
+        mods = [K.make(kind, p)] + ([artlib.FuzzyART(rho_f, 1e-3, 1.0)] if with_fuzzy else [])
+        est = artlib.FusionART(mods, [0.5, 0.5] if with_fuzzy else [1.0], [d, 2 * d] if with_fuzzy else [d])
+        with np.errstate(all="ignore"):
+            est.fit(X)
+        return [int(v) for v in est.labels_], [np.asarray(w, dtype=float) for w in est.W]
+    rep = {"module": kind, "params": {k_: (np.asarray(v_).tolist() if isinstance(v_, np.ndarray) else v_) for k_, v_ in p.items()}, "with_fuzzy_channel": with_fuzzy, "X": Xi.tolist()}
+    try:
+        ref = run(Xi.astype(float))
+        for dt in (np.int64, np.uint8, bool):
+            got = run(Xi.astype(dt))
+            if got[0] != ref[0] or len(got[1]) != len(ref[1]) or any(a.shape != b.shape or not np.allclose(a, b, atol=1e-9, equal_nan=True) for a, b in zip(got[1], ref[1])):
+                return {"signature": "FusionART/input-dtype", "text": f"rows given as {np.dtype(dt).name}: labels {got[0]}, as float64: {ref[0]}"
+                        + ("" if got[0] != ref[0] else "; the stored weights differ (a new category is not initialised from its sample by the module's rule)"),
+                        "replay": dict(rep, dtype=np.dtype(dt).name)}
+    except Exception as e:
+        return {"signature": "FusionART/input-dtype", "text": f"{type(e).__name__}: {str(e)[:80]}", "replay": rep}
+    return None
+
+
 def long_weight(rng):
     """modules whose weight vector is longer than the channel width"""
     import artlib
@@ -294,7 +334,7 @@ def main():
         stats["with_veto"] += 1 if ops[0].get("veto") else 0
         fails.extend(oracle(f, ops))
     for _ in range(60 if tier == "quick" else 600):
-        for g in (bare_vs_one_channel, supervised_one_channel, permutation, long_weight, dtype_variants, fused_weight_assigned_back):
+        for g in (bare_vs_one_channel, supervised_one_channel, permutation, long_weight, dtype_variants, dtype_variants_any, fused_weight_assigned_back):
             r = g(rng)
             if r:
                 fails.append(r)
